@@ -81,6 +81,19 @@ pub fn ctx_push(w: usize, buf: &[u8]) {
     }
 }
 
+/// the context of a saved case (replay tier): should it not terminate, the watchdog saves it whole
+pub fn ctx_from_case(w: usize, v: &Value) {
+    let num = |k: &str, d: f64| v.get(k).and_then(|x| x.as_f64().or_else(|| x.as_str().and_then(|s| s.parse::<f64>().ok()))).unwrap_or(d);
+    ctx_reset(w, (num("rx_lat", 52.0), num("rx_lon", 4.0)), num("range", 500.0));
+    if let Some(h) = v.get("history").and_then(|h| h.as_array()) {
+        for x in h {
+            if let Some(b) = x.as_str().and_then(bits::unhex) {
+                ctx_push(w, &b);
+            }
+        }
+    }
+}
+
 pub fn end_worker(w: usize) {
     HEARTBEAT[w].store(0, Ordering::Relaxed);
 }
